@@ -248,13 +248,13 @@ fn random_alg_case(r: &mut Rng) -> Case {
 }
 
 // ------------------------------------------------------------------ edit histories
-#[derive(Clone, Debug)]
+#[derive(Clone, Debug, PartialEq)]
 struct TV { index: usize, tag: u64 }
 impl Vertex for TV {
     fn index(&self) -> usize { self.index }
     fn dot_label(&self) -> String { String::new() }
 }
-#[derive(Clone, Debug)]
+#[derive(Clone, Debug, PartialEq)]
 struct TE { head: usize, tail: usize, tag: u64 }
 impl Edge for TE {
     fn head(&self) -> usize { self.head }
@@ -266,7 +266,11 @@ type TG = Graph<TV, TE>;
 fn tv(v: &TV) -> String { format!("({}, {})", v.index, v.tag) }
 fn te(e: &TE) -> String { format!("({}, {}, {})", e.head, e.tail, e.tag) }
 
-fn views(g: &TG) -> Result<String, falcon::Error> {
+fn res_coq<T>(r: Result<T, falcon::Error>, f: impl Fn(&T) -> String) -> String {
+    match r { Ok(t) => format!("(Ok {})", f(&t)), Err(e) => format!("(Err {})", err_kind(&e)) }
+}
+
+fn views(g: &TG, pool: &[usize]) -> Result<String, falcon::Error> {
     let vs: Vec<&TV> = g.vertices();
     let ks: Vec<usize> = vs.iter().map(|v| v.index).collect();
     let mut per = |f: &dyn Fn(usize) -> Result<String, falcon::Error>| -> Result<String, falcon::Error> {
@@ -282,8 +286,21 @@ fn views(g: &TG) -> Result<String, falcon::Error> {
     let ei = per(&|k| Ok(coq_list(g.edges_in(k)?.iter().map(|e| te(e)))))?;
     let np = coq_list(g.vertices_without_predecessors().iter().map(|v| tv(v)));
     let ns = coq_list(g.vertices_without_successors().iter().map(|v| tv(v)));
-    Ok(format!("(mkViews {} {} {} {} {} {} {} {} {} {} {})", g.num_vertices(),
-        coq_list(vs.iter().map(|v| tv(v))), coq_list(g.edges().iter().map(|e| te(e))), s, p, sv, pv, eo, ei, np, ns))
+    // probes of the pool ids that are not vertices: every answer must be an error
+    let probes = coq_list(pool.iter().filter(|k| !g.has_vertex(**k)).map(|k| {
+        format!("({}, ({}, {}, {}, {}))", k,
+            res_coq(g.edges_in(*k), |v| coq_list(v.iter().map(|e| te(e)))),
+            res_coq(g.edges_out(*k), |v| coq_list(v.iter().map(|e| te(e)))),
+            res_coq(g.successor_indices(*k), |v| nl(v)),
+            res_coq(g.predecessor_indices(*k), |v| nl(v)))
+    }));
+    // canonical representation: equal (derived PartialEq over the four maps) to the graph rebuilt from its views
+    let mut g2 = TG::new();
+    for v in g.vertices() { g2.insert_vertex(v.clone())?; }
+    for e in g.edges() { g2.insert_edge(e.clone())?; }
+    let canon = *g == g2;
+    Ok(format!("(mkViews {} {} {} {} {} {} {} {} {} {} {} {} {})", g.num_vertices(),
+        coq_list(vs.iter().map(|v| tv(v))), coq_list(g.edges().iter().map(|e| te(e))), s, p, sv, pv, eo, ei, np, ns, probes, coq_bool(canon)))
 }
 
 fn hist_case(r: &mut Rng) -> Case {
@@ -326,7 +343,7 @@ fn hist_case(r: &mut Rng) -> Case {
             res = observe(|| g.remove_edge(h, tl));
         }
         if res.kind() != "ok" { fails += 1; }
-        let w = observe(|| views(&g));
+        let w = observe(|| views(&g, &pool));
         ops.push(opc);
         descr.push(format!("{}:{}", opd, res.kind()));
         obs.push(format!("({}, {})", res.coq(|_| "tt".to_string()), w.coq(|s| s.clone())));
@@ -336,11 +353,11 @@ fn hist_case(r: &mut Rng) -> Case {
     t.push(format!("failing-ops:{}", if fails == 0 { "0" } else if fails < 5 { "1-4" } else { "5+" }));
     t.push(format!("removals-with-incident-edges:{}", rich_removals.min(3)));
     Case {
-        coq: format!("(KHist {}\n   {})%N", coq_list(ops.iter().cloned()), coq_list(obs.iter().cloned())),
-        descr: format!("history {}", descr.join(" ")),
+        coq: format!("(KHist {} {}\n   {})%N", nl(&pool), coq_list(ops.iter().cloned()), coq_list(obs.iter().cloned())),
+        descr: format!("history pool={:?} {}", pool, descr.join(" ")),
         tags: t,
         nontrivial: fails > 0 || rich_removals > 0,
-        key: format!("{:?}", ops),
+        key: format!("{:?} {:?}", pool, ops),
     }
 }
 
